@@ -67,7 +67,7 @@ theorem blocks_partition_counterexample :
 
 /-- the same requests when commit order = id order: the blocks cover every log -/
 example :
-    (run [1, 1, 1, 1, 1, 3, 2, 2, 2, 2, 2, 4] cxWorld).blocks =
+    (run [1, 1, 1, 1, 1, 1, 3, 2, 2, 2, 2, 2, 2, 4] cxWorld).blocks =
       [{ l := 1, from_ := 0, to := 1, ids := [1] }, { l := 1, from_ := 1, to := 2, ids := [2] }] := by
   decide
 
